@@ -102,6 +102,10 @@ class Arr(list):
     """a numeric array (numpy semantics for +, - with a scalar)"""
 
 
+class DDict(dict):
+    """collections.defaultdict(list-like factory): reading a missing key inserts a fresh empty list"""
+
+
 class MaxV:
     """offset + max/min(items): items are affine symbolic numbers (absint.Lin)"""
     def __init__(self, kind: str, items: tuple, offset: Any = 0):
@@ -293,6 +297,8 @@ class Interp:
             new = UNKNOWN
             if _is_num(cur) and _is_num(rhs) and isinstance(st.op, (ast.Add, ast.Sub)):
                 new = cur + rhs if isinstance(st.op, ast.Add) else cur - rhs
+            elif isinstance(st.op, (ast.Add, ast.Sub)) and (_lin(cur) is not None or isinstance(cur, MaxV)) and (_lin(rhs) is not None or isinstance(rhs, MaxV)):
+                new = sym_add(cur, rhs, 1 if isinstance(st.op, ast.Add) else -1)
             elif _is_num(cur) and _is_num(rhs) and isinstance(st.op, ast.Mult):
                 new = cur * rhs
             elif _is_num(cur) and _is_num(rhs) and isinstance(st.op, ast.Div) and rhs != 0:
@@ -460,10 +466,9 @@ class Interp:
             d = {}
             for k, v in zip(e.keys, e.values):
                 kv = self.ev(k, env, depth) if k is not None else UNKNOWN
-                if isinstance(kv, (str, int)):
-                    d[kv] = self.ev(v, env, depth)
-                else:
+                if kv is UNKNOWN:
                     return UNKNOWN
+                d[self._hashable(kv)] = self.ev(v, env, depth)
             return d
         if isinstance(e, ast.DictComp):
             if len(e.generators) != 1:
@@ -583,6 +588,11 @@ class Interp:
                     and all(x is not UNKNOWN for x in base):
                 self.trace.append(Effect("raise", f"IndexError: index {idx} of a list of length {len(base)}", node=e))
                 raise _Return(UNKNOWN)
+            if isinstance(base, DDict) and idx is not UNKNOWN:
+                k_ = self._hashable(idx)
+                if k_ not in base:
+                    base[k_] = []
+                return base[k_]
             if isinstance(base, dict) and idx is not UNKNOWN:
                 return base.get(self._hashable(idx), UNKNOWN)
             if isinstance(base, Obj) and isinstance(idx, int) and not isinstance(idx, bool) and 0 <= idx < len(base.fields):
@@ -729,6 +739,12 @@ class Interp:
                 if items and all(_lin(x) is not None for x in items):
                     ls = [_lin(x) for x in items]
                     return ls[0] if len(ls) == 1 else MaxV(nm, tuple(ls), 0)
+                if items and all(_lin(x) is not None or (isinstance(x, MaxV) and x.kind == nm and _lin(x.offset) is not None and _lin(x.offset).is_const()
+                                                         and _lin(x.offset).const == 0) for x in items):
+                    flat = []
+                    for x in items:
+                        flat += list(x.items) if isinstance(x, MaxV) else [_lin(x)]
+                    return MaxV(nm, tuple(flat), 0)
                 return UNKNOWN
             if nm in ("float", "int") and len(args) == 1 and isinstance(args[0], bool):
                 return int(args[0])
@@ -740,6 +756,11 @@ class Interp:
                 return SumVal(tuple(args[0]))
             if nm == "sum" and len(args) == 1 and isinstance(args[0], list) and all(_is_num(x) for x in args[0]):
                 return sum(args[0])
+            if nm == "sum" and len(args) == 1 and isinstance(args[0], list) and all(_lin(x) is not None for x in args[0]):
+                tot = _lin(0)
+                for x in args[0]:
+                    tot = tot + _lin(x)
+                return tot
             if nm == "round" and 1 <= len(args) <= 2 and _is_num(args[0]) and (len(args) == 1 or isinstance(args[1], int)):
                 return round(*args)
             if nm == "abs" and len(args) == 1 and _is_num(args[0]):
